@@ -37,3 +37,7 @@ def run(rep, ctx, tier):
         rep.count("values_extracted_in_loops", R1D.run_values(rep, ctx, a, "R1d"))
         # a verdict (or any other per-claim result) computed per loop iteration is accumulated, not overwritten
         rep.count("bodies_with_loops", R1D.run_last_value(rep, ctx, a, "R1L"))
+        if a.method in ("batch_check", "check_combinations"):
+            # queries are never de-duplicated by label alone
+            from ..rules import dedup as R5K
+            R5K.run(rep, ctx, a, "R5k")
